@@ -63,6 +63,19 @@ ignored           self.stats.borrow_mut().num_recursive_calls += 1, debug_assert
 loops             `let mut acc = e; for [&]x in xs { acc = ..; } acc`  -> an auxiliary function `<name>_loop`, structurally recursive on the list
 guarded match     a `match` on one pointer with `if` guards        -> the four pointer shapes are enumerated, the arms resolved in source order
 smooth_helper     recursion measure emitted: (total - current, is_neg(bdd)); Lean checks the decrease (`decreasing_by`)
+helper functions  a call of a small private `fn` of the same file (e.g. `cache_key`)  -> its body is translated in place
+Option / Result   Some / None / Ok / Err with a known constructor are matched statically (the continuation is placed in each arm);
+                  .map / .and_then / .map_or / .unwrap_or / .is_some / .is_none / .or_else / `?`  -> Option.map / bind / getD / isSome / …
+                  `<`, `>`, `.max` on Option<usize>                 -> Gen.BddCore.optLt / optMax (None is least; defined in the prelude)
+iterators         [a, b, c] / .iter() / .into_iter() / .flatten() / .map / .filter / .any / .all / .rev / .take / .skip / .sum / .count /
+                  .find / .position / .min_by_key / .max_by_key / .collect -> List literals / filterMap id / List.map / filter / any / all /
+                  reverse / take / drop / sum / length / find? / Gen.BddCore.position / minByKey (first minimum) / maxByKey (last maximum)
+                  order.between_iter(a, b)                          -> ((List.range (b - a)).map (fun i => varAt (a + i))).reverse
+                  m.assignment_iter() (PartialModel), lit.label() / lit.polarity()  -> the list of pairs, .1 / .2
+                  `break` / `continue` in a translated `for`         -> leave with / re-enter with the current accumulator
+inverse map       a VarOrder function that reads `pos_to_var` gets the extra parameter `varAt` (its type then differs from the model's)
+elaboration guard the generated file is elaborated once (`lake env lean`); a definition on an error line falls back to its alias
+                  (`UNTRANSLATED … does not elaborate`); a definition that elaborates but differs still breaks its tie
 partiality        panic!(..) / .unwrap() on none                   -> `none` in a function whose model returns Option, otherwise UNTRANSLATED
 """
 import os, re, sys, traceback
@@ -412,7 +425,10 @@ class Parser:
                 return ("return", None)
             return ("return", self.expr(no_struct))
         if self.at("break") or self.at("continue"):
-            raise Untranslatable("break/continue")
+            t = self.eat()
+            if self.peek() not in (";", "}", ","):
+                raise Untranslatable("labelled break / break with a value")
+            return (t,)
         if self.at("|") or self.at("||") or self.at("move"):
             return self.closure(no_struct)
         lhs = self.binary(0, no_struct)
@@ -665,6 +681,18 @@ class KI:
         self.kind, self.comps = kind, comps  # kind: choice / complChoice / const
 
 
+class OptSome:
+    """`Some(inner)` with an arbitrary symbolic inner value"""
+    def __init__(self, inner):
+        self.inner = inner
+
+
+class ResV:
+    """`Ok(inner)` / `Err(inner)`"""
+    def __init__(self, kind, inner):
+        self.kind, self.inner = kind, inner
+
+
 class Node:
     def __init__(self, v, lo, hi):
         self.v, self.lo, self.hi = v, lo, hi
@@ -732,6 +760,8 @@ def lean(v):
         return ap("Bdd.Ite." + v.kind, *v.comps)
     if isinstance(v, Tup):
         return "(" + ", ".join(lean(x) for x in v.items) + ")"
+    if isinstance(v, OptSome):
+        return "some " + par(lean(v.inner))
     raise Untranslatable("a %s value is used as a term" % type(v).__name__)
 
 
@@ -742,6 +772,8 @@ def ty_of(v):
         return "ptr"
     if isinstance(v, KI):
         return "ite"
+    if isinstance(v, OptSome):
+        return "optnat" if ty_of(v.inner) == "nat" else "opt"
     return "any"
 
 
@@ -772,6 +804,9 @@ def mk_if(c, a, b):
 PLACEHOLDER = "\u0000HOLE\u0000"
 
 
+_CUR = [None]
+
+
 class Ctx:
     def __init__(self, env, state):
         self.env, self.state = env, state
@@ -798,6 +833,11 @@ class Tr:
         self.aux = []               # auxiliary definitions (loops)
         self.loopname = None
         self.closure_alias = []
+        self.ret_stack = []
+        self.loop_ctl = []
+        self.inline_depth = 0
+        self.uses_varAt = False
+        self.file = _CUR[0]
 
     # ---- names
     def fresh(self, base):
@@ -813,10 +853,14 @@ class Tr:
 
     # ---- function results
     def ret(self, ctx, v):
+        if self.ret_stack:
+            return self.ret_stack[-1](ctx, v)
+        if self.mode == "noreturn":
+            raise Untranslatable("`return` inside a loop body")
         if self.mode == "pure":
             return lean(v)
         if self.mode == "opt":
-            return "some " + par(lean(v))
+            return lean(OptSome(v))
         if self.mode == "optstate":
             return "some (%s, %s)" % (ctx.state, lean(v))
         if self.mode == "pairstate":
@@ -926,7 +970,11 @@ class Tr:
                 return k(ctx, UNIT)
             return self.tr_args(e[1], ctx, lambda c, vs: k(c, Tup(vs)))
         if tag == "array":
-            return self.tr_args(e[1], ctx, lambda c, vs: k(c, L("[" + ", ".join(lean(x) for x in vs) + "]", "list")))
+            def arr(c, vs):
+                tys = set(ty_of(x) for x in vs)
+                lt = {"ptr": "list", "nat": "natlist", "opt": "optlist", "optnat": "optlist"}.get(tys.pop() if len(tys) == 1 else "", "anylist")
+                return k(c, L("[" + ", ".join(lean(x) for x in vs) + "]", lt))
+            return self.tr_args(e[1], ctx, arr)
         if tag == "block":
             return self.tr_block(e, ctx, k, hint)
         if tag == "closure":
@@ -973,6 +1021,10 @@ class Tr:
             return self.tr_match(e[1], e[2], ctx, k, hint)
         if tag == "for":
             return self.tr_for(e, ctx, k)
+        if tag in ("break", "continue"):
+            if not self.loop_ctl:
+                raise Untranslatable("`%s` outside a translated loop" % tag)
+            return self.loop_ctl[-1][tag](ctx)
         raise Untranslatable("expression form " + tag)
 
     # ---- atoms
@@ -1007,6 +1059,7 @@ class Tr:
         if isinstance(v, Marker) and v.name == "var_to_pos":
             return L(ap("lvl", lean(ix)), "nat")
         if isinstance(v, Marker) and v.name == "pos_to_var":
+            self.uses_varAt = True
             return L(ap("varAt", lean(ix)), "nat")
         raise Untranslatable("indexing")
 
@@ -1025,6 +1078,10 @@ class Tr:
     def binop(self, op, a, b):
         ta, tb = lean(a), lean(b)
         rel = {"==": "=", "!=": "≠", "<": "<", "<=": "≤", ">": ">", ">=": "≥"}
+        if op in ("<", ">", "<=", ">=") and (ty_of(a) == "optnat" or ty_of(b) == "optnat"):
+            lt = lambda x, y: ap("Gen.BddCore.optLt", x, y)
+            txt = {"<": lt(ta, tb), ">": lt(tb, ta), "<=": "!" + par(lt(tb, ta)), ">=": "!" + par(lt(ta, tb))}[op]
+            return L(txt, "bool")
         if op in rel:
             return L("%s %s %s" % (par(ta), rel[op], par(tb)), "prop")
         if op in ("&&", "||"):
@@ -1088,10 +1145,60 @@ class Tr:
                 return self.tr_args(args, ctx, lambda c, vs: self.apply_closure(clo, vs, c, k, hint))
             name = "::".join(segs[-2:]) if len(segs) >= 2 else segs[0]
 
+            if len(segs) == 1 and self.file and segs[0] not in ("Some", "Ok", "Err", "Reg", "Compl"):
+                cands = [f for f in find_fns(file_toks(self.file), segs[0]) if f["header"] == ""]
+                if len(cands) == 1:
+                    return self.tr_args(args, ctx, lambda c, vs: self.inline_call(cands[0], vs, c, k))
+
             def done(c, vs):
                 return k(c, self.static_call(name, vs, c))
             return self.tr_args(args, ctx, done)
         raise Untranslatable("call of a computed function")
+
+    def inline_call(self, f, vs, ctx, k):
+        """a small private helper function of the same file: its body is translated in place"""
+        names = [x[0] for x in param_names(f["params"])]
+        if len(names) != len(vs) or self.inline_depth >= 3:
+            raise Untranslatable("call of a helper function (arity / nesting)")
+        body = parse_body(f["body"])
+        depth = len(self.ret_stack)
+
+        def done(c, v):
+            saved = self.ret_stack[depth:]
+            del self.ret_stack[depth:]
+            self.inline_depth -= 1
+            try:
+                return k(Ctx(ctx.env, c.state), v)
+            finally:
+                self.inline_depth += 1
+                self.ret_stack.extend(saved)
+        self.ret_stack.append(done)
+        self.inline_depth += 1
+        try:
+            return self.tr_block(body, Ctx(dict(zip(names, vs)), ctx.state), done)
+        finally:
+            self.inline_depth -= 1
+            del self.ret_stack[depth:]
+
+    def closure_lambda(self, clo, ctx, tys):
+        """a closure as a Lean lambda; returns (text, type of the body)"""
+        if len(clo.params) != len(tys):
+            raise Untranslatable("closure arity")
+        inner, xs = Ctx(dict(clo.env), ctx.state), []
+        for p_, t_ in zip(clo.params, tys):
+            if p_[0] == "pbind":
+                x = self.fresh(p_[1])
+                inner = inner.bind(p_[1], L(x, t_))
+            elif p_[0] == "pwild":
+                x = "_"
+            else:
+                raise Untranslatable("closure parameter pattern")
+            xs.append(x)
+        body = self.pure(clo.body, inner)
+        bt = lean(body)
+        if ty_of(body) == "prop":
+            bt = "decide " + par(bt)
+        return "fun %s => %s" % (" ".join(xs), bt), ("bool" if ty_of(body) == "prop" else ty_of(body))
 
     def apply_closure(self, clo, vs, ctx, k, hint):
         if len(vs) != len(clo.params):
@@ -1117,7 +1224,9 @@ class Tr:
         if name in ("VarLabel::new", "VarLabel::new_usize") and len(vs) == 1:
             return vs[0]
         if name == "Some" and len(vs) == 1:
-            return L("some " + par(lean(vs[0])), "opt")
+            return OptSome(vs[0])
+        if name in ("Ok", "Err") and len(vs) == 1:
+            return ResV(name.lower(), vs[0])
         if name == "Ite::new" and len(vs) == 4:
             o = vs[0]
             if not (isinstance(o, L) and o.ty == "order"):
@@ -1132,6 +1241,8 @@ class Tr:
     # ---- Option helpers
     def opt_bind(self, v, ctx, k, hint, on_none):
         """v : Option; continue with its content, `on_none` otherwise"""
+        if isinstance(v, OptSome):
+            return k(ctx, v.inner)
         t = lean(v)
         m = re.match(r"^some (.*)$", t)
         if m and (ATOM.match(m.group(1)) or balanced_wrapped(m.group(1))):
@@ -1190,8 +1301,32 @@ class Tr:
             if name == "is_compl_choice" and not av:
                 return k(ctx, L("true" if rv.kind == "complChoice" else "false", "bool"))
             raise Untranslatable("method .%s on a standard triple" % name)
+        if isinstance(rv, OptSome):
+            if name == "unwrap" and not av:
+                return k(ctx, rv.inner)
+            rv = L(lean(rv), ty_of(rv))
+        if isinstance(rv, L) and rv.ty == "lit" and not av and name in ("label", "polarity", "get_label", "get_polarity"):
+            return k(ctx, L(par(rv.text) + (".1" if "label" in name else ".2"), "nat" if "label" in name else "bool"))
+        if isinstance(rv, L) and name == "assignment_iter" and not av and rv.ty == "assignlist":
+            return k(ctx, rv)
+        if isinstance(rv, L) and rv.ty in ("list", "assignlist", "natlist", "optlist", "anylist"):
+            return self.list_method(rv, name, av, ctx, k)
         if isinstance(rv, (L,)):
             t = rv.text
+            if name in ("is_some", "is_none") and not av:
+                return k(ctx, L(ap("Option.isSome" if name == "is_some" else "Option.isNone", t), "bool"))
+            if name == "unwrap_or" and len(av) == 1:
+                return k(ctx, L(ap("Option.getD", t, lean(av[0])), ty_of(av[0])))
+            if name == "max" and len(av) == 1 and (rv.ty == "optnat" or ty_of(av[0]) == "optnat"):
+                return k(ctx, L(ap("Gen.BddCore.optMax", t, lean(av[0])), "optnat"))
+            if name in ("max", "min") and len(av) == 1 and rv.ty == "nat":
+                return k(ctx, L(ap(name, t, lean(av[0])), "nat"))
+            if name in ("and_then", "map_or") and av and isinstance(av[-1], Clos):
+                fn, bt = self.closure_lambda(av[-1], ctx, ["any"])
+                if name == "and_then" and len(av) == 1:
+                    return k(ctx, L(ap("Option.bind", t, fn), "opt"))
+                if name == "map_or" and len(av) == 2:
+                    return k(ctx, L(ap("Option.getD", ap("Option.map", fn, t), lean(av[0])), bt))
             if not av:
                 if name == "neg":
                     return k(ctx, L(ap("Bdd.Ptr.neg", t), "ptr"))
@@ -1210,11 +1345,8 @@ class Tr:
                 if name in ("low_raw", "high_raw", "low", "high"):
                     raise Untranslatable(".%s() on a pointer that is not known to be a node" % name)
             if name == "map" and len(av) == 1 and isinstance(av[0], Clos) and len(av[0].params) == 1 and av[0].params[0][0] == "pbind":
-                clo = av[0]
-                x = self.fresh(clo.params[0][1])
-                inner = Ctx(dict(clo.env), ctx.state).bind(clo.params[0][1], L(x, "ptr"))
-                body = self.pure(clo.body, inner)
-                return k(ctx, L(ap("Option.map", "fun %s => %s" % (x, lean(body)), t), "opt"))
+                fn, bt = self.closure_lambda(av[0], ctx, ["any"])
+                return k(ctx, L(ap("Option.map", fn, t), "optnat" if bt == "nat" else "opt"))
             if name == "or_else" and len(av) == 1 and isinstance(av[0], Clos) and not av[0].params:
                 clo = av[0]
                 body = self.pure(clo.body, Ctx(dict(clo.env), ctx.state))
@@ -1222,6 +1354,41 @@ class Tr:
                 return k(ctx, L("(match %s with\n| some %s => some %s\n| none => %s)" % (t, x, x, lean(body)), "opt"))
             raise Untranslatable("method .%s(%d args) on a term" % (name, len(av)))
         raise Untranslatable("method .%s on %s" % (name, type(rv).__name__))
+
+    def list_method(self, rv, name, av, ctx, k):
+        t, ty = rv.text, rv.ty
+        elem = {"list": "ptr", "assignlist": "lit", "natlist": "nat", "optlist": "opt", "anylist": "any"}[ty]
+        back = {"ptr": "list", "lit": "assignlist", "nat": "natlist", "opt": "optlist", "optnat": "optlist"}
+        if not av:
+            if name in ("iter", "into_iter", "collect", "cloned", "copied", "to_vec", "clone"):
+                return k(ctx, rv)
+            if name == "flatten" and ty == "optlist":
+                return k(ctx, L(ap("List.filterMap", "id", t), "anylist"))
+            if name == "rev":
+                return k(ctx, L(ap("List.reverse", t), ty))
+            if name in ("count", "len"):
+                return k(ctx, L(ap("List.length", t), "nat"))
+            if name == "sum":
+                return k(ctx, L(ap("List.sum", t), "nat"))
+            if name == "is_empty":
+                return k(ctx, L(ap("List.isEmpty", t), "bool"))
+        if len(av) == 1 and isinstance(av[0], Clos):
+            fn, bt = self.closure_lambda(av[0], ctx, [elem])
+            if name == "map":
+                return k(ctx, L(ap("List.map", fn, t), back.get(bt, "anylist")))
+            if name == "filter":
+                return k(ctx, L(ap("List.filter", fn, t), ty))
+            if name in ("any", "all"):
+                return k(ctx, L(ap("List." + name, t, fn), "bool"))
+            if name in ("min_by_key", "max_by_key"):
+                return k(ctx, L(ap("Gen.BddCore." + ("minByKey" if name[1] == "i" else "maxByKey"), fn, t), "opt"))
+            if name == "position":
+                return k(ctx, L(ap("Gen.BddCore.position", fn, t), "optnat"))
+            if name == "find":
+                return k(ctx, L(ap("List.find?", fn, t), "opt"))
+        if len(av) == 1 and name in ("take", "skip"):
+            return k(ctx, L(ap("List.take" if name == "take" else "List.drop", lean(av[0]), t), ty))
+        raise Untranslatable("iterator method .%s" % name)
 
     def check_hash(self, hv, key):
         if not (isinstance(hv, Marker) and hv.name == "hash" and hv.extra == origin_of(key)):
@@ -1238,7 +1405,13 @@ class Tr:
             if name == "get" and len(av) == 1:
                 return k(ctx, L(ap("lvl", lean(av[0])), "nat"))
             if name == "var_at_level" and len(av) == 1:
+                self.uses_varAt = True
                 return k(ctx, L(ap("varAt", lean(av[0])), "nat"))
+            if name == "num_vars" and not av:
+                return k(ctx, L("numVars", "nat"))
+            if name == "between_iter" and len(av) == 2:
+                lo_, hi_ = lean(av[0]), lean(av[1])
+                return k(ctx, L("List.reverse ((List.range (%s - %s)).map (fun i => varAt (%s + i)))" % (par(hi_), par(lo_), par(lo_)), "natlist"))
             if name == "first" and len(av) == 2:
                 return k(ctx, L(ap(G + "first", "lvl", lean(av[0]), lean(av[1])), "ptr"))
             if name == "first_essential" and len(av) == 3:
@@ -1323,9 +1496,11 @@ class Tr:
             b = self.try_pure(lambda kk: self.tr_else(els, ctx, kk, hint), ctx)
             if b is not None:
                 try:
-                    return k(ctx, mk_if(cv, a, b))
-                except _NoMerge:
-                    pass
+                    merged = mk_if(cv, a, b)
+                except (_NoMerge, Untranslatable):
+                    merged = None
+                if merged is not None:
+                    return k(ctx, merged)
         return "if %s then %s\nelse %s" % (ct, self.tr_block(then, ctx, k, hint), self.tr_else(els, ctx, k, hint))
 
     def tr_else(self, els, ctx, k, hint):
@@ -1429,7 +1604,8 @@ class Tr:
             while b[0] in ("ref", "cast"):
                 b = b[1]
             svar.append(b[1][0] if b[0] == "path" and len(b[1]) == 1 and b[1][0] in ctx.env else None)
-        stexts = [lean(v) for v in svals]
+        known = n == 1 and (isinstance(svals[0], (OptSome, ResV)) or (isinstance(svals[0], L) and svals[0].text == "none"))
+        stexts = None if known else [lean(v) for v in svals]
 
         def arm_alts(pat):
             if n == 1:
@@ -1587,6 +1763,51 @@ class Tr:
                 lines.append("| %s => %s" % (lpat, resolve(0)))
             return "(match %s with\n%s)" % (stexts[0], "\n".join(lines))
 
+        def known_match(pat, v):
+            """pattern against a value with a known Option / Result constructor: context transformer or None"""
+            if pat[0] == "pwild":
+                return lambda c: c
+            if pat[0] == "pbind":
+                return lambda c: c.bind(pat[1], v)
+            if pat[0] == "por":
+                for a in pat[1]:
+                    m = known_match(a, v)
+                    if m is not None:
+                        return m
+                return None
+            if pat[0] == "ppath" and pat[1][-1] == "None":
+                return (lambda c: c) if isinstance(v, L) and v.text == "none" else None
+            if pat[0] == "pts" and len(pat[2]) == 1 and pat[1][-1] in ("Some", "Ok", "Err"):
+                want = pat[1][-1]
+                ok = (want == "Some" and isinstance(v, OptSome)) or (isinstance(v, ResV) and v.kind == want.lower())
+                if not ok:
+                    return None
+                sub = pat[2][0]
+                return lambda c: self.bind_pat(sub, v.inner, c)
+            raise Untranslatable("pattern against a known Option/Result value")
+
+        if known:
+            def resolve_known(i):
+                if i == len(arms):
+                    raise Untranslatable("non-exhaustive match on a known value")
+                pat, guard, body = arms[i]
+                m = known_match(pat, svals[0])
+                if m is None:
+                    return resolve_known(i + 1)
+                c = m(ctx)
+
+                def k_arm(c2, v2):
+                    env = dict(ctx.env)
+                    for nm in ctx.env:
+                        if nm in c2.env and c2.env[nm] is not c.env.get(nm):
+                            env[nm] = c2.env[nm]
+                    return k(Ctx(env, c2.state), v2)
+                if guard is None:
+                    return self.tr_expr(body, c, k_arm, hint)
+                g = lean(self.pure(guard, c))
+                return "if %s then %s\nelse %s" % (g, self.tr_expr(body, c, k_arm, hint), resolve_known(i + 1))
+            return resolve_known(0)
+
         if n == 1 and any(g is not None for _, g, _ in arms) and all(ptr_pat(p_) for p_, _, _ in arms):
             return static_route()
         r = go(list(arms))
@@ -1606,16 +1827,18 @@ class Tr:
 
     # ---- for loops (only the accumulate-over-a-slice shape of or_lst / and_lst)
     def tr_for(self, e, ctx, k):
-        """`for [&]x in xs { acc = <expr>; }` with one loop-carried variable: an auxiliary function, structurally
-        recursive on the list, that threads the state and the accumulator (the shape of `bAndLst` / `bOrLst`)"""
+        """`for x in xs { … acc = …; … }` with one loop-carried variable (and `break` / `continue`): an auxiliary
+        function, structurally recursive on the list, that threads the accumulator (and the state, if any)"""
         _, pat, it, body = e
-        if self.mode != "optstate" or self.loopname is None:
+        if self.mode not in ("optstate", "pure") or self.loopname is None:
             raise Untranslatable("`for` loop in this kind of function")
         if pat[0] != "pbind":
             raise Untranslatable("`for` pattern")
         xs = self.pure(it, ctx)
-        if ty_of(xs) != "list":
-            raise Untranslatable("`for` over something that is not a slice parameter")
+        elems = {"list": ("Bdd.Ptr", "ptr"), "assignlist": ("(Nat × Bool)", "lit"), "natlist": ("Nat", "nat")}
+        if ty_of(xs) not in elems:
+            raise Untranslatable("`for` over an unsupported iterator")
+        ety, evt = elems[ty_of(xs)]
         carried = []
 
         def scan(a):
@@ -1632,19 +1855,38 @@ class Tr:
         if len(carried) != 1 or carried[0] not in ctx.env:
             raise Untranslatable("`for` loop without exactly one loop-carried variable")
         acc = carried[0]
-        sub = Tr("optstate")
-        sub.used = set(self.used)
+        stateful = self.mode == "optstate"
+        sub = Tr("optstate" if stateful else "pure")
+        sub.used, sub.file = set(self.used), self.file
         a, x, rest = sub.fresh(acc), sub.fresh(pat[1]), sub.fresh("rest")
-        name = "Gen.BddCore." + self.loopname
+        self.loopcount = getattr(self, "loopcount", 0) + 1
+        lname = self.loopname if self.loopcount == 1 else "%s%d" % (self.loopname, self.loopcount)
+        name = "Gen.BddCore." + lname
+        pre = ["C", "lvl", "fuel"] if stateful else ["lvl"]
 
-        def k_loop(c, v):
-            return ap(name, "C", "lvl", "fuel", c.state, lean(c.env[acc]), rest)
-        inner = Ctx({acc: L(a, "ptr"), pat[1]: L(x, "ptr")}, "s")
-        txt = sub.tr_block(body, inner, k_loop)
-        self.aux.append("def %s (C : Bdd.CacheImpl) (lvl : Nat → Nat) (fuel : Nat) (s : C.σ) (%s : Bdd.Ptr) : List Bdd.Ptr → Option (C.σ × Bdd.Ptr)\n"
-                        "  | [] => some (s, %s)\n  | %s :: %s =>\n%s\n" % (self.loopname, a, a, x, rest, indent(txt, 4)))
-        return self.effect_call(ap(name, "C", "lvl", "fuel", ctx.state, lean(ctx.env[acc]), lean(xs)), ctx,
-                                lambda c, v: k(c.bind(acc, v), UNIT), acc)
+        def again(c):
+            return ap(name, *(pre + ([c.state] if stateful else []) + [lean(c.env[acc]), rest]))
+
+        def leave_loop(c):
+            return "some (%s, %s)" % (c.state, lean(c.env[acc])) if stateful else lean(c.env[acc])
+        sub.loop_ctl.append({"break": leave_loop, "continue": again})
+        sub.mode_saved = sub.mode
+        inner = Ctx({acc: L(a, "ptr"), pat[1]: L(x, evt)}, "s" if stateful else None)
+        real_mode = sub.mode
+        sub.ret_stack.append(lambda c, v: (_ for _ in ()).throw(Untranslatable("`return` inside a loop body")))
+        txt = sub.tr_block(body, inner, lambda c, v: again(c))
+        self.uses_varAt = self.uses_varAt or sub.uses_varAt
+        if stateful:
+            sig = "(C : Bdd.CacheImpl) (lvl : Nat → Nat) (fuel : Nat) (s : C.σ) (%s : Bdd.Ptr) : List %s → Option (C.σ × Bdd.Ptr)" % (a, ety)
+            base = "some (s, %s)" % a
+        else:
+            sig = "(lvl : Nat → Nat) (%s : Bdd.Ptr) : List %s → Bdd.Ptr" % (a, ety)
+            base = a
+        self.aux.append("def %s %s\n  | [] => %s\n  | %s :: %s =>\n%s\n" % (lname, sig, base, x, rest, indent(txt, 4)))
+        if stateful:
+            return self.effect_call(ap(name, "C", "lvl", "fuel", ctx.state, lean(ctx.env[acc]), lean(xs)), ctx,
+                                    lambda c, v: k(c.bind(acc, v), UNIT), acc)
+        return k(ctx.bind(acc, L(ap(name, "lvl", lean(ctx.env[acc]), lean(xs)), "ptr")), UNIT)
 
 
 class _Impure(Exception):
@@ -1673,6 +1915,7 @@ def pick_fn(rel, name, header=None, nth=None):
         fs = fs[nth:nth + 1]
     if len(fs) != 1:
         raise Untranslatable("expected exactly one `fn %s` in %s (%s), found %d" % (name, rel, header, len(fs)))
+    _CUR[0] = rel
     f = fs[0]
     f["names"] = param_names(f["params"])
     f["ast"] = parse_body(f["body"])
@@ -1760,7 +2003,9 @@ def d_first():
     tr = Tr("pure", self_kind="order")
     a, b = tr.fresh(pa), tr.fresh(pb)
     body = tr.tr_block(f["ast"], Ctx({pa: L(a, "ptr"), pb: L(b, "ptr")}, None), tr.ret)
-    return "def first (lvl : Nat → Nat) (%s %s : Bdd.Ptr) : Bdd.Ptr :=\n%s" % (a, b, indent(body))
+    # a source that reads the inverse map gets the extra parameter: its type then differs from the model's
+    lv = "(lvl varAt : Nat → Nat)" if tr.uses_varAt else "(lvl : Nat → Nat)"
+    return "def first %s (%s %s : Bdd.Ptr) : Bdd.Ptr :=\n%s" % (lv, a, b, indent(body))
 
 
 def d_firstEssential():
@@ -1769,7 +2014,8 @@ def d_firstEssential():
     tr = Tr("opt", self_kind="order")
     a, b, c = tr.fresh(pa), tr.fresh(pb), tr.fresh(pc)
     body = tr.tr_block(f["ast"], Ctx({pa: L(a, "ptr"), pb: L(b, "ptr"), pc: L(c, "ptr")}, None), tr.ret)
-    return "def firstEssential (lvl : Nat → Nat) (%s %s %s : Bdd.Ptr) : Option Nat :=\n%s" % (a, b, c, indent(body))
+    lv = "(lvl varAt : Nat → Nat)" if tr.uses_varAt else "(lvl : Nat → Nat)"
+    return "def firstEssential %s (%s %s %s : Bdd.Ptr) : Option Nat :=\n%s" % (lv, a, b, c, indent(body))
 
 
 def check_ite_forwards():
@@ -1889,16 +2135,29 @@ def d_accessor(rust, leanname, header, mode, rettype):
     return "def %s (%s : Bdd.Ptr) : %s :=\n%s" % (leanname, p_, rettype, indent(body))
 
 
+def d_condModelH():
+    f = pick_fn(ROBDD, "cond_model_h")
+    pb, pm = expect_params(f, 2)
+    tr = Tr("pure")
+    tr.loopname = "condModelH_loop"
+    b, m = tr.fresh(pb), tr.fresh(pm)
+    body = tr.tr_block(f["ast"], Ctx({pb: L(b, "ptr"), pm: L(m, "assignlist")}, None), tr.ret)
+    if not tr.aux:
+        tr.aux.append("abbrev condModelH_loop := @Bdd.condModel\n")
+    return ("".join(tr.aux) + "def condModelH (lvl : Nat → Nat) (%s : Bdd.Ptr) (%s : List (Nat × Bool)) : Bdd.Ptr :=\n%s" % (b, m, indent(body)))
+
+
 def d_smoothHelper():
     f = pick_fn(ROBDD, "smooth_helper")
     pb, pc, pt = expect_params(f, 3)
     tr = Tr("pure")
+    tr.loopname = "smoothHelper_loop"
     b, c, t = tr.fresh(pb), tr.fresh(pc), tr.fresh(pt)
     env = {pb: L(b, "ptr"), pc: L(c, "nat"), pt: L(t, "nat")}
     body = tr.tr_block(f["ast"], Ctx(env, None), tr.ret)
     # the recursion of the source: `total - current` decreases, except in the Compl arm, which re-enters with the
     # regular pointer at the same level; the measure is stated here, its proof obligations are checked by Lean
-    return ("def smoothHelper (lvl varAt : Nat → Nat) (%s : Bdd.Ptr) (%s %s : Nat) : Bdd.Ptr :=\n%s\n"
+    return ("".join(tr.aux) + "def smoothHelper (lvl varAt : Nat → Nat) (%s : Bdd.Ptr) (%s %s : Nat) : Bdd.Ptr :=\n%s\n"
             "termination_by (%s - %s, if Bdd.Ptr.isNeg %s then 1 else 0)\n"
             "decreasing_by all_goals (simp_wf; simp [Bdd.Ptr.isNeg]; try omega)"
             % (b, c, t, indent(body), t, c, b))
@@ -1930,6 +2189,7 @@ FUNCTIONS = [
     ("condWithAlloc", "Bdd.condWithAlloc", "RobddBuilder::cond_with_alloc", d_condWithAlloc),
     ("condHelper", "Bdd.condition", "RobddBuilder::cond_helper", lambda: d_cond3(ROBDD, "cond_helper", "condHelper", r"BddBuilder")),
     ("condition", "Bdd.condition", "BottomUpBuilder::condition", lambda: d_cond3(BUILDER, "condition", "condition", r"BottomUpBuilder")),
+    ("condModelH", "Bdd.condModel", "RobddBuilder::cond_model_h", d_condModelH),
     ("bNegate", "Bdd.Ptr.neg", "BottomUpBuilder::negate", lambda: d_pure_op(BUILDER, "negate", "bNegate", r"BottomUpBuilder", ["ptr"])),
     ("mkVar", "Bdd.mkVar", "BottomUpBuilder::var", lambda: d_pure_op(BUILDER, "var", "mkVar", r"BottomUpBuilder", ["nat", "bool"])),
     ("bAnd", "Bdd.bAnd", "BottomUpBuilder::and", lambda: d_state_op(BUILDER, "and", "bAnd", r"BottomUpBuilder", ["ptr", "ptr"])),
@@ -1984,28 +2244,120 @@ namespace Gen.BddCore
 """
 
 
+EXTRA_ALIAS = {
+    "bAndLst": [("bAndLst_loop", "@Bdd.bAndLst")],
+    "bOrLst": [("bOrLst_loop", "@Bdd.bOrLst")],
+    "condModelH": [("condModelH_loop", "@Bdd.condModel")],
+}
+
+PRELUDE = """/-! helper functions the translation of iterator / `Option` idioms refers to (trusted, see the mapping table) -/
+/-- `Ord::max` on `Option<usize>` (`None` is the least element) -/
+def optMax : Option Nat → Option Nat → Option Nat
+  | none, b => b
+  | a, none => a
+  | some a, some b => some (max a b)
+/-- `<` on `Option<usize>` (`None` is the least element) -/
+def optLt : Option Nat → Option Nat → Bool
+  | none, some _ => true
+  | some a, some b => decide (a < b)
+  | _, none => false
+/-- `Iterator::min_by_key`: the FIRST element with the least key -/
+def minByKey {α : Type} (f : α → Nat) : List α → Option α
+  | [] => none
+  | x :: xs => some (xs.foldl (fun acc y => if f y < f acc then y else acc) x)
+/-- `Iterator::max_by_key`: the LAST element with the greatest key -/
+def maxByKey {α : Type} (f : α → Nat) : List α → Option α
+  | [] => none
+  | x :: xs => some (xs.foldl (fun acc y => if f acc > f y then acc else y) x)
+/-- `Iterator::position` -/
+def position {α : Type} (f : α → Bool) : List α → Option Nat
+  | [] => none
+  | x :: xs => if f x then some 0 else (position f xs).map (· + 1)
+"""
+
+
+def fallback_text(name, model, rust, why):
+    why = why.replace("\n", " ")[:300]
+    if model.startswith("fun"):
+        txt = "-- TRANSLATOR ROUTE NOT AVAILABLE for `%s` (%s)\nabbrev %s := %s\n" % (rust, why, name, model)
+    else:
+        txt = ("-- TRANSLATOR ROUTE NOT AVAILABLE for `%s` (%s):\n-- alias of the hand-written model; tied by the correspondence streams only\n"
+               "abbrev %s := @%s\n" % (rust, why, name, model))
+    for n2, m2 in EXTRA_ALIAS.get(name, []):
+        txt += "abbrev %s := %s\n" % (n2, m2)
+    return txt
+
+
+def elaboration_errors(text):
+    """elaborate the generated text once; returns the set of 1-based line numbers with errors, or None when
+    the tool chain is not available"""
+    import subprocess, tempfile
+    leandir = os.path.join(ROOT, "lean")
+    tmp = os.path.join(leandir, "RsddModel", "Model", ".GenBddCore_check.lean")
+    try:
+        open(tmp, "w").write(text)
+        r = subprocess.run(["lake", "env", "lean", tmp], cwd=leandir, capture_output=True, text=True, timeout=600)
+    except Exception:
+        return None
+    finally:
+        try:
+            os.remove(tmp)
+        except OSError:
+            pass
+    out = r.stdout + r.stderr
+    lines = set(int(m.group(1)) for m in re.finditer(r"\.GenBddCore_check\.lean:(\d+):\d+: error", out))
+    if r.returncode != 0 and not lines:
+        return None
+    return lines
+
+
 def main():
-    status, parts = {}, [HEAD]
+    status, parts = {}, []
     for name, model, rust, driver in FUNCTIONS:
         try:
-            _TOKS_before = None
             text = driver()
             if PLACEHOLDER in text:
                 raise Untranslatable("internal: unresolved hole")
-            parts.append("/-- translated from `%s` -/\n%s\n" % (rust, text))
+            parts.append([name, model, rust, "/-- translated from `%s` -/\n%s\n" % (rust, text)])
             status[rust] = "translated (-> Gen.BddCore.%s, tied to %s)" % (name, model if len(model) < 40 else "its model expression")
         except Exception as e:  # never crash: fall back for this function alone
             why = ("%s" % e if isinstance(e, (Untranslatable, OSError)) else "internal %s: %s" % (type(e).__name__, e)).replace("\n", " ")
             if os.environ.get("GEN_DEBUG") and not isinstance(e, Untranslatable):
                 traceback.print_exc()
-            parts.append("-- TRANSLATOR ROUTE NOT AVAILABLE for `%s` (%s):\n-- alias of the hand-written model; tied by the correspondence streams only\n"
-                         "abbrev %s := @%s\n" % (rust, why[:300], name, model) if not model.startswith("fun") else
-                         "-- TRANSLATOR ROUTE NOT AVAILABLE for `%s` (%s)\nabbrev %s := %s\n" % (rust, why[:300], name, model))
-            if name in ("bAndLst", "bOrLst"):
-                parts.append("abbrev %s_loop := @Bdd.%s\n" % (name, name))
+            parts.append([name, model, rust, fallback_text(name, model, rust, why)])
             status[rust] = "UNTRANSLATED (translator route not available, tied by correspondence only): %s" % why[:300]
-    parts.append("end Gen.BddCore\n")
-    write_if_changed(OUT, "\n".join(parts))
+
+    def assemble():
+        chunks, spans, line = [HEAD, PRELUDE], [], (HEAD + "\n" + PRELUDE + "\n").count("\n") + 1
+        for prt in parts:
+            n = prt[3].count("\n") + 1
+            spans.append((line, line + n - 1, prt))
+            line += n
+            chunks.append(prt[3])
+        chunks.append("end Gen.BddCore\n")
+        return "\n".join(chunks), spans
+
+    text, spans = assemble()
+    old = open(OUT).read() if os.path.exists(OUT) else None
+    # elaboration guard: a generated definition that does not elaborate falls back to its alias, so that an
+    # ill-typed translation can never break the build (one that elaborates but differs still breaks its tie)
+    rounds = 0
+    while text != old and rounds < 6 and not os.environ.get("GEN_NO_ELAB"):
+        rounds += 1
+        errs = elaboration_errors(text)
+        if not errs:
+            break
+        hit = False
+        for lo, hi, prt in spans:
+            if any(lo <= e <= hi for e in errs) and "TRANSLATOR ROUTE NOT AVAILABLE" not in prt[3]:
+                why = "the generated definition does not elaborate"
+                prt[3] = fallback_text(prt[0], prt[1], prt[2], why)
+                status[prt[2]] = "UNTRANSLATED (translator route not available, tied by correspondence only): %s" % why
+                hit = True
+        if not hit:
+            break
+        text, spans = assemble()
+    write_if_changed(OUT, text)
     return status
 
 
